@@ -196,7 +196,7 @@ func (c03) Execute(sc *engine.Scenario) *engine.Result {
 	arm := func() {
 		// learn the addressed locations from a dry run of the reference
 		dry := l.ref
-		dry.Acc = nil
+		dry.Acc, dry.Fetched = nil, nil // a copy must not share the backing arrays with the reference proper
 		db := &dryBus{l: l}
 		dry.Bus = db
 		preRef = dry
@@ -300,6 +300,12 @@ func c03Judge(res *engine.Result, l *lockstep, sbase uint8, watch []uint16, doc 
 		case "buswrite-missing":
 			res.Fail(fmt.Sprintf("C03/write-missing/%s", key), l.m.N, "%s", mm.detail)
 			return
+		case "busread-cycle":
+			res.Fail(fmt.Sprintf("C03/read-cycle/%s", key), l.m.N, "%s", mm.detail)
+			return
+		case "busread":
+			res.Fail(fmt.Sprintf("C03/read-access/%s", key), l.m.N, "%s", mm.detail)
+			return
 		}
 	}
 	// ---- writes: after which cycle did the location stop holding the stamp?
@@ -382,7 +388,7 @@ func c03Judge(res *engine.Result, l *lockstep, sbase uint8, watch []uint16, doc 
 				return false
 			}
 			dry := *pre
-			dry.Acc = nil
+			dry.Acc, dry.Fetched = nil, nil
 			dry.Bus = &dryBus{l: l, override: ov}
 			dry.RunInstruction()
 			if matches(&dry) {
